@@ -106,6 +106,11 @@ class SyncWorker(base.Worker):
                                            errno.EWOULDBLOCK):
                             raise
 
+                    if not self.alive:
+                        # max_requests reached or told to stop: leave the
+                        # clients of the other listeners to another worker
+                        break
+
             if not self.is_parent_alive():
                 return
 
